@@ -227,6 +227,26 @@ pub fn record_c02(a: &Args) -> usize {
         frames.push((0x0001, 0, vec![0xFF; 254]));
         frames.push((0x8000, 0x80, rand_bytes(&mut rng, 100)));
     }
+    // hex text whose length field or checksum is inconsistent in other ways than by one damaged character:
+    // declared length off by 1, 128, 256 (more than 255 data pairs), wrong checksums, both digit cases
+    out.balance();
+    for _ in 0..(if thorough { 3000 } else { 300 }) {
+        let t = synth(&mut rng);
+        out.emit(json!({"e": "accept", "s": j::bytes(&t), "res": decode(&t)}));
+    }
+    for count in [256usize, 257, 300, 511, 512, 513, 768, 1000] {
+        for fix in [0u8, 1] {
+            let mut payload = vec![(count % 256) as u8, 0xAB, 0xCD, 0x00];
+            payload.extend((0..count).map(|i| (i * 7) as u8));
+            let sum = payload.iter().fold(0u8, |a, &b| a.wrapping_add(b));
+            payload.push(0u8.wrapping_sub(sum).wrapping_add(fix));
+            let mut t = vec![b':'];
+            for b in &payload {
+                t.extend_from_slice(format!("{:02X}", b).as_bytes());
+            }
+            out.emit(json!({"e": "accept", "s": j::bytes(&t), "res": decode(&t)}));
+        }
+    }
     for (addr, ty, data) in frames {
         for nl in [false, true] {
             out.balance();
